@@ -85,7 +85,7 @@ def conc_shard(spec, res):
                     q['method'] == 'DELETE' and q['path'].endswith(name) and
                     results[m] is not None and results[m].status == 204
                     for m, q in reqs.items())
-                if name not in final.classes and not other_deleted:
+                if name not in final.classes and not other_deleted:  # noqa
                     res.violation(
                         'C19|created-class-missing|concurrent|%s'
                         % wit['scenario'],
